@@ -61,7 +61,7 @@ def func_sig(f):
     return f["name"] + ("(uint256)" if f["kind"] in ARG_KINDS else "()")
 
 
-ARG_KINDS = {"setv", "addv", "guard_arg", "assert_arg", "roll_arg", "warp_arg", "setv_br"}
+ARG_KINDS = {"setv", "addv", "guard_arg", "assert_arg", "roll_arg", "warp_arg", "setv_br", "setv_rel"}
 # functions that store a value of the transaction and then branch on it without changing the
 # storage differently in the two arms: two successful end states with the same storage terms
 # that differ only in the path condition on the stored symbol
@@ -154,6 +154,13 @@ def gen_func_code(f, lab):
         cmp_ = {"gt": [("push", K), "LT"], "lt": [("push", K), "GT"], "eq": [("push", K), "EQ"]}[f.get("cmp", "gt")]
         arm = ["STOP"] if not f.get("late") else store + ["STOP"]
         it += ([] if f.get("late") else store) + src + cmp_ + [("ref", ok), "JUMPI"] + arm + [("label", ok)] + arm
+    elif k == "setv_rel":
+        # payable: slot = arg; if (msg.value > K) {} else {}; require(arg == msg.value)
+        # the branch condition constrains the stored symbol only THROUGH the later condition arg == msg.value
+        def tail(sfx):
+            return [("push", 4), "CALLDATALOAD", "CALLVALUE", "EQ", ("ref", f"{lab}_t{sfx}"), "JUMPI"] + _revert() + [("label", f"{lab}_t{sfx}"), "STOP"]
+
+        it += [("push", 4), "CALLDATALOAD", ("push", s), "SSTORE", "CALLVALUE", ("push", K), "LT", ("ref", ok), "JUMPI"] + tail("a") + [("label", ok)] + tail("b")
     elif k == "xstep":                  # require(slot[s] == a); slot[t] = b
         it += require([("push", s), "SLOAD", ("push", a), "EQ"]) + [("push", b), ("push", f["t"]), "SSTORE", "STOP"]
     elif k == "xset_if":                # if (slot[s] == a) slot[t] = b
